@@ -6,6 +6,7 @@ import Driver.Sim
 import NakenVerif.Sim.Tms1000Impl
 import NakenVerif.Sim.I8008Impl
 import NakenVerif.Sim.Lc3Impl
+import NakenVerif.Sim.M6502Impl
 namespace Driver.SimX
 open Driver.Sim NakenVerif.Sim
 
@@ -91,6 +92,23 @@ def lc3 (kv : KV) (cells : List (BitVec 32 × BitVec 8)) : String :=
     kvOut [("pc", s.pc.toNat), ("psr", s.psr.toNat), ("cyc", getU kv "cyc"), ("stop", b2n s.stopRunning),
       ("show", b2n s.showOn)] ++ "," ++ arrOut "reg" 4 s.reg
 
+def m6502 (kv : KV) (cells : List (BitVec 32 × BitVec 8)) : String :=
+  let s : M6502.State := {
+    a := .ofNat 32 (getU kv "a"), x := .ofNat 32 (getU kv "x"), y := .ofNat 32 (getU kv "y"),
+    sr := .ofNat 32 (getU kv "sr"), pc := .ofNat 32 (getU kv "pc"), sp := .ofNat 32 (getU kv "sp"),
+    cycleCount := .ofNat 32 (getU kv "cyc"),
+    breakIo := if (kv.lookup "bio").isSome then .ofNat 32 (getU kv "bio") else 0xfffffff0,
+    stopRunning := bit kv "stop", showOn := bit kv "show" }
+  match M6502.step (memOf cells) s with
+  | .fault w => "fault " ++ w
+  | .ok (_, _, some st) => "exit=" ++ toString st.toNat
+  | .ok (o, m, none) =>
+    let s := o.state
+    "ret=" ++ toString o.ret ++ " " ++
+      kvOut [("a", s.a.toNat), ("x", s.x.toNat), ("y", s.y.toNat), ("sr", s.sr.toNat), ("pc", s.pc.toNat), ("sp", s.sp.toNat),
+        ("cyc", s.cycleCount.toNat), ("stop", b2n s.stopRunning), ("show", b2n s.showOn)] ++
+      " mem=" ++ renderMem m (cells.map (·.1)) (o.writes.map (·.1))
+
 def handle (args : List String) : String :=
   match args with
   | [cpu, st, cells] =>
@@ -100,6 +118,7 @@ def handle (args : List String) : String :=
       if cpu == "tms1000" then tms1000 kv cells
       else if cpu == "8008" then i8008 kv cells
       else if cpu == "lc3" then lc3 kv cells
+      else if cpu == "6502" then m6502 kv cells
       else "not-modelled"
     | none => "bad-op"
   | _ => "bad-op"
